@@ -169,7 +169,7 @@ func (r *raceImpl) Exec(h *vh.H, op string) string {
 		return "skipped-after-deadlock"
 	}
 	bin := r.childBinary(h)
-	ctx, cancel := context.WithTimeout(context.Background(), 180*time.Second)
+	ctx, cancel := context.WithTimeout(context.Background(), 900*time.Second)
 	defer cancel()
 	cmd := exec.CommandContext(ctx, bin, append([]string{"child"}, p[1:]...)...)
 	cmd.Env = append(os.Environ(), "GORACE=halt_on_error=0 atexit_sleep_ms=0", "GOMAXPROCS=16")
@@ -219,7 +219,7 @@ func (r *raceImpl) Exec(h *vh.H, op string) string {
 	}
 	if ctx.Err() != nil {
 		r.deadlocked = true
-		fail("deadlock", "child did not finish within 180 s")
+		fail("deadlock", "child did not finish within 900 s")
 	} else if err != nil && fails == 0 {
 		fail("child-crash", err.Error()+"\n"+tail(se, 1500))
 	}
@@ -535,7 +535,7 @@ func unlinkedMark(root j5schema.RootSchema) string {
 
 // a round normally takes well under a second (a few seconds under -race with 64 goroutines on a
 // loaded machine)
-const watchdog = 25 * time.Second
+const watchdog = 60 * time.Second
 
 func childMain(args []string) {
 	if len(args) != 5 {
